@@ -1,5 +1,6 @@
 import PcfgVerif.Model.Detect
 import PcfgVerif.Model.Scorer
+import PcfgVerif.Model.Counters
 import PcfgVerif.Drive.Loader
 /-! Driver commands for the detectors / parsing pipeline (C05, C13, C03). -/
 namespace Drive.Detect
@@ -69,6 +70,12 @@ def step (st : St) : List String → St × String
     match parseCps pw with
     | some pw => (st, showParsed (parse st.uenv st.cfg st.mw pw))
     | none => (st, "bad-op")
+  | "dt.lenctr" :: toks =>
+    -- successive `_update_counter_len_indexed` calls on one fresh counter dict; calls are separated by `|`
+    let calls := ((" ".intercalate toks).splitOn " | ").map fun c => ((c.splitOn " ").filter (· ≠ "")).filterMap parseCps
+    let d : LenCtr := calls.foldl updateLenIndexed []
+    (st, " ".intercalate ("lenctr" :: d.map fun e =>
+      s!"{e.1}:[" ++ ",".intercalate (e.2.map fun p => s!"{showCps p.1}={p.2}") ++ "]"))
   | ["sc.clear"] => ({ st with sg := [] }, "ok")
   | ["sc.tbl", name, v, p] =>
     match parseCps v, parseFloat p with
